@@ -40,7 +40,27 @@ type Case struct {
 	// "unknown", not "finished" - the profile still outlasts the startup profile and every startup token must become an instance.
 	SharedHead []SharedPart `json:"shared_rps_head,omitempty"`
 	SharedTail string       `json:"shared_rps_tail,omitempty"`
+	// ImplicitStart: the harness does not Start the startup profile itself - the engine's first draw starts it, which is
+	// what happens in every real run. The profile's clock then begins when the pool begins to start instances: not
+	// before Engine.Run was called and not before the gun's warm-up returned (WarmUpMs > 0: guns implement
+	// warmup.WarmedUp and the warm-up takes that long). Token k is then due no earlier than that instant + its offset,
+	// so a profile whose clock ran during the warm-up (instances released in a burst when it ends) is seen.
+	ImplicitStart bool `json:"implicit_start,omitempty"`
+	WarmUpMs      int  `json:"warmup_ms,omitempty"`
+	// ExtraPools: further pools of the same engine, each with its own startup profile (once(Once) then Const more
+	// instances over ConstMs) and a shared finite profile; ids are numbered per pool.
+	ExtraPools []ExtraPool `json:"extra_pools,omitempty"`
 }
+
+// ExtraPool is a sibling pool of the judged pool.
+type ExtraPool struct {
+	Once    int `json:"once"`
+	Const   int `json:"const,omitempty"`
+	ConstMs int `json:"const_ms,omitempty"`
+	Shots   int `json:"shots"`
+}
+
+func (e ExtraPool) tokens() int { return e.Once + e.Const }
 
 // SharedPart is one short part at the beginning of the pool-wide RPS profile.
 type SharedPart struct {
@@ -193,6 +213,23 @@ func genCase(t *rapid.T) Case {
 	if rapid.IntRange(0, 7).Draw(t, "factoryFail") == 0 {
 		c.FactoryErrAt = rapid.IntRange(1, startupTokens(c.Startup)).Draw(t, "factoryErrAt")
 	}
+	// the engine starts the profile itself (as in every real run), in half of those cases behind a gun warm-up
+	if c.Mode != "shared_outlasts" && rapid.IntRange(0, 2).Draw(t, "implicitStart") != 0 {
+		c.ImplicitStart = true
+		c.WarmUpMs = rapid.SampledFrom([]int{0, 0, 10, 30, 60}).Draw(t, "warmUpMs")
+	}
+	// sibling pools with their own startup profiles
+	if rapid.IntRange(0, 3).Draw(t, "extraPools") == 0 {
+		n := rapid.IntRange(1, 2).Draw(t, "nExtra")
+		for i := 0; i < n; i++ {
+			e := ExtraPool{Once: rapid.IntRange(1, 4).Draw(t, "extraOnce"), Shots: rapid.IntRange(1, 30).Draw(t, "extraShots")}
+			if rapid.Bool().Draw(t, "extraConst") {
+				e.Const = rapid.IntRange(1, 4).Draw(t, "extraConstN")
+				e.ConstMs = rapid.IntRange(2, 30).Draw(t, "extraConstMs")
+			}
+			c.ExtraPools = append(c.ExtraPools, e)
+		}
+	}
 	return c
 }
 
@@ -214,7 +251,11 @@ func check(c Case, o *vf.Obs) error {
 		plan = fake.ProviderPlan{Total: c.Ammo, Queue: c.Ammo, AfterLast: "return"}
 	}
 	prov := fake.NewProvider(plan)
-	guns := fake.NewGunWorld(fake.GunPlan{ShotUs: []int{c.ShotUs}, PanicAtShot: -1, FactoryErrAt: c.FactoryErrAt, BindErrAt: -1, Closer: true})
+	if c.WarmUpMs < 0 || c.WarmUpMs > 1000 || (c.WarmUpMs > 0 && !c.ImplicitStart) || (c.ImplicitStart && c.Mode == "shared_outlasts") {
+		return fmt.Errorf("bad case: warmup_ms / implicit_start")
+	}
+	guns := fake.NewGunWorld(fake.GunPlan{ShotUs: []int{c.ShotUs}, PanicAtShot: -1, FactoryErrAt: c.FactoryErrAt, BindErrAt: -1, Closer: true,
+		WarmUp: c.WarmUpMs > 0, WarmUpDelayUs: c.WarmUpMs * 1000})
 	aggr := fake.NewAggregator(fake.AggPlan{})
 	m := pand.Metrics()
 	var shared *fake.Sched
@@ -251,6 +292,32 @@ func check(c Case, o *vf.Obs) error {
 		ID: "p", Provider: prov, Aggregator: aggr, NewGun: guns.Factory,
 		RPSPerInstance: c.Mode == "per_instance", NewRPSSchedule: newSched, StartupSchedule: su,
 	}}}
+	var extraGuns []*fake.GunWorld
+	for i, e := range c.ExtraPools {
+		if e.Once < 1 || e.tokens() > 40 || e.Shots < 1 || (e.Const > 0) != (e.ConstMs > 0) {
+			return fmt.Errorf("bad case: extra pool %d: %+v", i, e)
+		}
+		e := e
+		w := fake.NewGunWorld(fake.GunPlan{ShotUs: []int{50}, PanicAtShot: -1, FactoryErrAt: -1, BindErrAt: -1, Closer: true})
+		extraGuns = append(extraGuns, w)
+		var esu core.Schedule = schedule.NewOnce(int64(e.Once))
+		if e.Const > 0 {
+			d := time.Duration(e.ConstMs) * time.Millisecond
+			esu = schedule.NewComposite(esu, schedule.NewConst((float64(e.Const)+0.25)/d.Seconds(), d))
+		}
+		pool := engine.InstancePoolConfig{
+			ID: fmt.Sprintf("x%d", i), Provider: fake.NewProvider(fake.ProviderPlan{Total: -1, Queue: 0, AfterLast: "wait_ctx"}),
+			Aggregator: fake.NewAggregator(fake.AggPlan{}), NewGun: w.Factory, RPSPerInstance: true,
+			NewRPSSchedule:  func() (core.Schedule, error) { return schedule.NewOnce(int64(e.Shots)), nil },
+			StartupSchedule: esu,
+		}
+		// siblings go first or last in the engine's list
+		if i%2 == 0 {
+			conf.Pools = append([]engine.InstancePoolConfig{pool}, conf.Pools...)
+		} else {
+			conf.Pools = append(conf.Pools, pool)
+		}
+	}
 	eng := engine.New(pand.NopLog(), m, conf)
 	ctx, cancel := context.WithCancel(context.Background())
 	defer cancel()
@@ -270,21 +337,37 @@ func check(c Case, o *vf.Obs) error {
 	}
 	defer stopProbe()
 	t0 := time.Now()
-	su.Start(t0)
-	parts, _, _, _ := sg.Chain(leaves, t0)
-	var tokenTimes []time.Time
-	for _, p := range parts {
-		tokenTimes = append(tokenTimes, p.Tokens...)
+	if !c.ImplicitStart {
+		su.Start(t0)
 	}
 	var runErr error
 	done := make(chan struct{})
 	go func() { runErr = eng.Run(ctx); close(done) }()
 	var cancelAt time.Time
 	finishedBeforeCancel := int64(-1)
+	// instances of the judged pool (the engine's metrics count all pools): guns bound / guns closed
+	mainBound := func() int {
+		n := 0
+		for _, g := range guns.GunsSnapshot() {
+			if g.Bound.Load() {
+				n++
+			}
+		}
+		return n
+	}
+	mainClosed := func() int64 {
+		n := int64(0)
+		for _, g := range guns.GunsSnapshot() {
+			if g.Bound.Load() && g.ClosedAt.Load() != 0 {
+				n++
+			}
+		}
+		return n
+	}
 	if c.Mode == "long" {
 		// wait (generously) until every startup token became an instance, or the run ended by itself
 		deadline := time.Now().Add(15 * time.Second)
-		for int(m.InstanceStart.Get()) < total && time.Now().Before(deadline) {
+		for mainBound() < total && time.Now().Before(deadline) {
 			select {
 			case <-done:
 				deadline = time.Now()
@@ -293,7 +376,7 @@ func check(c Case, o *vf.Obs) error {
 			}
 		}
 		time.Sleep(2 * time.Millisecond)
-		finishedBeforeCancel = m.InstanceFinish.Get()
+		finishedBeforeCancel = mainClosed()
 		cancelAt = time.Now()
 		cancel()
 	}
@@ -303,7 +386,49 @@ func check(c Case, o *vf.Obs) error {
 		return fmt.Errorf("Engine.Run did not return within 30s")
 	}
 	eng.Wait()
-	started := int(m.InstanceStart.Get())
+	if c.ImplicitStart {
+		// the engine started the profile with its first draw: not before Run was called (t0) and not before the
+		// warm-up returned; token times computed from that instant are lower bounds of the real ones
+		for _, sp := range guns.StepSpans() {
+			if sp.Kind == "warmup" && sp.End.After(t0) {
+				t0 = sp.End
+			}
+		}
+		if c.WarmUpMs > 0 && guns.WarmUps == 0 {
+			return fmt.Errorf("harness: the gun's WarmUp was never called")
+		}
+	}
+	parts, _, _, _ := sg.Chain(leaves, t0)
+	var tokenTimes []time.Time
+	for _, p := range parts {
+		tokenTimes = append(tokenTimes, p.Tokens...)
+	}
+	// --- sibling pools: ids are numbered per pool ---
+	extraInstances := 0
+	for i, w := range extraGuns {
+		var xids []int
+		for _, g := range w.GunsSnapshot() {
+			if g.Bound.Load() {
+				xids = append(xids, g.Deps.InstanceID)
+			}
+		}
+		sort.Ints(xids)
+		for k, id := range xids {
+			if id != k {
+				return fmt.Errorf("pool x%d (one of %d pools of the engine): instance ids are %v: expected distinct ids numbered consecutively from 0 within the pool",
+					i, len(conf.Pools), xids)
+			}
+		}
+		if len(xids) > c.ExtraPools[i].tokens() {
+			return fmt.Errorf("pool x%d: %d instances were started, its startup profile has only %d tokens", i, len(xids), c.ExtraPools[i].tokens())
+		}
+		if c.Mode != "long" && runErr == nil && len(xids) != c.ExtraPools[i].tokens() {
+			return fmt.Errorf("pool x%d: %d instances started, its startup profile has %d tokens; profiles are per instance, ammo is unlimited, nothing failed, nobody cancelled",
+				i, len(xids), c.ExtraPools[i].tokens())
+		}
+		extraInstances += len(xids)
+	}
+	started := int(m.InstanceStart.Get()) - extraInstances
 	factoryFailed := guns.Reached("factory")
 	if c.Buffered {
 		if !prov.RunReturned.Load() {
@@ -451,6 +576,14 @@ func check(c Case, o *vf.Obs) error {
 		distinctInstants[tt.UnixNano()] = true
 	}
 	o.Class("mode_" + c.Mode)
+	o.ClassIf(c.ImplicitStart, "engine_starts_the_profile")
+	o.ClassIf(c.ImplicitStart && c.WarmUpMs > 0, "engine_starts_the_profile_after_warmup")
+	o.ClassIf(c.ImplicitStart && c.WarmUpMs > 0 && total >= 2 && len(distinctInstants) >= 2 && !factoryFailed,
+		"warmup_then_startup_spread_in_time")
+	o.ClassIf(c.ImplicitStart && c.WarmUpMs > 0 && total >= 2 && !factoryFailed && tokenTimes[len(tokenTimes)-1].Sub(t0) < time.Duration(c.WarmUpMs)*time.Millisecond && len(distinctInstants) >= 2,
+		"warmup_longer_than_startup_spread")
+	o.ClassIf(len(c.ExtraPools) > 0, "several_pools")
+	o.ClassIf(extraInstances >= 2 && len(ids) >= 2, "several_pools_ge_2_instances_each")
 	o.ClassIf(factoryFailed, "cut_short_creation_failed")
 	o.ClassIf(started < total && c.Mode == "ammo_short", "cut_short_ammo")
 	o.ClassIf(started < total && c.Mode == "shared_short", "cut_short_rps_end")
